@@ -767,13 +767,15 @@ pub fn c05(ctx: Arc<Ctx>) {
 			.join([", ", ",", " ,\t"][sep as usize])
 	};
 	let ov = |v: &[&str]| -> Vec<String> { ["--override-input-compression", "gzip"].iter().chain(v.iter()).map(|s| s.to_string()).collect() };
-	for (mode, extra) in [("best", vec![]), ("fast", vec!["--fast".to_string()]), ("flip-y", vec!["--flip-y".to_string()]), ("swap-xy", vec!["--swap-xy".to_string()]), ("override", ov(&[])), ("override flip-y", ov(&["--flip-y"])), ("override swap-xy fast", ov(&["--swap-xy", "--fast"]))] {
+	for (mode, extra) in [("best", vec![]), ("fast", vec!["--fast".to_string()]), ("flip-y", vec!["--flip-y".to_string()]), ("swap-xy", vec!["--swap-xy".to_string()]), ("flip-y swap-xy", vec!["--flip-y".to_string(), "--swap-xy".to_string()]), ("override", ov(&[])), ("override flip-y", ov(&["--flip-y"])), ("override swap-xy fast", ov(&["--swap-xy", "--fast"]))] {
 		let is_override = mode.starts_with("override");
 		// where a stored tile is served: flip maps y -> 2^z-1-y, swap exchanges x and y
 		let tf = move |k: Key| -> String {
 			match mode {
 				"flip-y" | "override flip-y" => format!("{}/{}/{}", k.0, k.1, ((1u64 << k.0) - 1 - k.2 as u64)),
 				"swap-xy" | "override swap-xy fast" => format!("{}/{}/{}", k.0, k.2, k.1),
+				// flip applied first, then swap: the tile stored at (x, y) is served at (2^z-1-y, x)
+				"flip-y swap-xy" => format!("{}/{}/{}", k.0, ((1u64 << k.0) - 1 - k.2 as u64), k.1),
 				_ => format!("{}/{}/{}", k.0, k.1, k.2),
 			}
 		};
@@ -1024,7 +1026,7 @@ pub fn c07(ctx: Arc<Ctx>) {
 	for (p, c) in &files {
 		std::fs::write(root.join(p), c).unwrap();
 	}
-	let canaries: Vec<(PathBuf, &str)> = vec![(base.join("canary.txt"), "CANARY-NEXT-TO-ROOT"), (sibling.join("canary.txt"), "CANARY-IN-SIBLING"), (sibling.join("a.txt"), "CANARY-SIBLING-A"), (work.0.join("canary.txt"), "CANARY-ABOVE"), (base.join("www.txt"), "CANARY-PREFIX-NAME")];
+	let canaries: Vec<(PathBuf, &str)> = vec![(base.join("canary.txt"), "CANARY-NEXT-TO-ROOT"), (sibling.join("canary.txt"), "CANARY-IN-SIBLING"), (sibling.join("a.txt"), "CANARY-SIBLING-A"), (work.0.join("canary.txt"), "CANARY-ABOVE"), (base.join("www.txt"), "CANARY-PREFIX-NAME"), (base.join("index.html"), "CANARY-INDEX-NEXT-TO-ROOT"), (work.0.join("index.html"), "CANARY-INDEX-ABOVE"), (sibling.join("index.html"), "CANARY-INDEX-IN-SIBLING")];
 	for (p, c) in &canaries {
 		std::fs::write(p, c).unwrap();
 	}
